@@ -43,6 +43,23 @@ def cases(seed, tier):
             main["inject"] = [{"id": f"rs{k}", "at": {"step": st}, "do": "rsuspend", "args": {"just": same_text or f"direct #{k}", "after": rng.choice([0.05, 0.3])}} for k, st in enumerate(steps)]
             main["decisions"] = [{"do": "resume"}] * 3
             yield c3
+        if i % 4 == 3 and c["re"].get("record_interruptions") and c.get("suspenders"):
+            # the suspender's signal goes bad while the engine is *paused* and is still bad at RE.resume(): however the
+            # engine holds the plan back for it, every time it waits for a suspender with a run open is a suspension
+            # and has its record
+            c4 = copy.deepcopy(c)
+            c4["variant"] = f"{c.get('variant')}-trip-while-paused"
+            main = next(s_ for s_ in c4["script"] if s_.get("main"))
+            sig = next(iter(c4["suspenders"].values()))["signal"]
+            main["inject"] = [{"id": "p0", "at": {"step": rng.randrange(8, 80)}, "do": "pause"}]
+            main["decisions"] = [
+                {"do": "put", "signal": sig, "value": 1},
+                {"do": "sleep", "t": 0.2},
+                {"do": "resume", "inject": [{"id": "r0", "at": {"time": rng.choice([0.3, 1.0])}, "do": "put", "args": {"signal": sig, "value": 0}}]},
+                {"do": "resume"},
+            ]
+            main["final"] = "resume"
+            yield c4
 
 
 def check(res):
@@ -77,6 +94,17 @@ def check(res):
             # what happened while the run was open (after its interruptions descriptor, before its stop)
             expected = []
             seen_sus = set()
+            # a 'wait_for' that neither the plan yielded nor a suspension's helper plan (the first one after its
+            # '_start_suspender'): the engine itself is holding the plan back for a suspender
+            plan_mids = {e.d["mid"] for e in evs if e.kind == "plan" and e.d["what"] == "yield"}
+            helper_waits = set()
+            pending_sus = 0
+            for e in evs:
+                if e.kind == "msg" and e.d["cmd"] == "_start_suspender":
+                    pending_sus += 1
+                elif e.kind == "msg" and e.d["cmd"] == "wait_for" and e.d["mid"] not in plan_mids and e.d["mid"] not in helper_waits and pending_sus:
+                    helper_waits.add(e.d["mid"])
+                    pending_sus -= 1
             for e in evs:
                 if not (idesc_seq < e.seq < stop_seq):
                     continue
@@ -88,6 +116,9 @@ def check(res):
                     if e.d["mid"] not in seen_sus:
                         seen_sus.add(e.d["mid"])
                         expected.append("suspend")
+                elif e.kind == "msg" and e.d["cmd"] == "wait_for" and e.d["mid"] not in plan_mids and e.d["mid"] not in helper_waits and e.d["mid"] not in seen_sus:
+                    seen_sus.add(e.d["mid"])
+                    expected.append("suspend")
                 elif e.kind == "call_begin" and e.d["api"] == "resume":
                     expected.append("resume")
             got = [d["data"]["interruption"] for _, d in recs]
